@@ -6,7 +6,55 @@ KV = "berty.tech/go-orbit-db/stores/kvstore"
 DOC = "berty.tech/go-orbit-db/stores/documentstore"
 EL = "berty.tech/go-orbit-db/stores/eventlogstore"
 
+DC = "berty.tech/go-orbit-db/pubsub/directchannel"
+
+PSC = "berty.tech/go-orbit-db/pubsub/pubsubcoreapi"
+OOO = "berty.tech/go-orbit-db/pubsub/oneonone"
+
 CHECKS = {
+    "C20": {
+        "groups": [{
+            "pkg": PSC, "funcs": ["VerifC20PeersDiff", "VerifC20SelfFilter"],
+            "params": {"quick": {"P": 3, "S": 3, "M": 3}, "thorough": {"P": 3, "S": 4, "M": 5}},
+            "max_paths": {"quick": 60000, "thorough": 400000},
+            "covers": {"VerifC20PeersDiff": ["diffed"], "VerifC20SelfFilter": ["drained"]},
+        }, {
+            "pkg": OOO, "funcs": ["VerifC20ChannelID", "VerifC20Monitor"],
+            "params": {"quick": {"L": 2, "M": 3}, "thorough": {"L": 3, "M": 5}},
+            "covers": {"VerifC20ChannelID": ["symmetric", "distinct"], "VerifC20Monitor": ["monitored"]},
+        }, {
+            "pkg": DC, "funcs": ["VerifC20FrameRoundTrip", "VerifC12RawFrame"],
+            "params": {"quick": {"L": 3, "B": 11}, "thorough": {"L": 6, "B": 12}},
+            "flags": {"alloc-bound": 16},
+            "covers": {"VerifC20FrameRoundTrip": ["received"], "VerifC12RawFrame": ["handled"]},
+        }],
+        "assumptions": [
+            "membership: every sequence of S duplicate-free snapshots over P peers whose ids are symbolic pairwise-distinct strings, returned by a scripted coreiface PubSub().Peers()",
+            "messages: M scripted messages, each from the local peer or a remote one, 1 symbolic byte body; the real WatchMessages / monitorTopic goroutines run in the interpreter",
+            "channel names: peer ids are symbolic strings of length L without '/'; sort.Slice is a stable insertion sort over the real less closure",
+            "frames: payloads of 0..L symbolic bytes through the real Send -> varint -> handleNewPeer path over a byte-pipe stream stub; plus ANY raw stream of 0..B bytes",
+        ],
+        "outside": ["snapshots containing duplicates (assumed sets, as libp2p returns)", "third-party senders on a pairwise topic", "real stream I/O errors", "pubsubraw adapter (libp2p-pubsub internals)", "payloads longer than the bound / up to the 4 MiB limit (the limit comparison itself is covered symbolically by VerifC12RawFrame)"],
+    },
+    "C12": {
+        "groups": [{
+            "pkg": DC, "funcs": ["VerifC12RawFrame"],
+            "params": {"quick": {"B": 11}, "thorough": {"B": 12}},
+            "flags": {"alloc-bound": 16},
+            "covers": {"VerifC12RawFrame": ["handled"]},
+        }, {
+            "pkg": BS, "funcs": ["VerifC12Heads"],
+            "params": {"quick": {"H": 1}, "thorough": {"H": 2}},
+            "covers": {"VerifC12Heads": ["malformed-handled", "valid-sent"]},
+        }],
+        "assumptions": [
+            "raw direct-channel stream = ANY byte string of length 0..B (every byte symbolic): every varint incl. 10-byte overflowing ones and every declared length; real bufio.Reader, binary.ReadUvarint, io.ReadFull are interpreted",
+            "declared lengths above 16 are explored up to the size check and the allocation only (recorded cut)",
+            "head-exchange message: json.Unmarshal over-approximated by ANY value of the message type: 1..H heads, each null or an entry with identity (absent / without signatures / complete, naming a writer), clock (absent / any 64-bit time), hash, next, key+sig independently absent or present; delivered on the store's topic of a replica built by the real InitBaseStore; afterwards a valid head (real ipfs-log Append by a second device of the writer) must still replicate through the real replicator, fetcher, Join",
+            "stub IO mirrors the nil-dereferences of the real CBOR IO (ToJsonableLamportClock / ToJsonableIdentitySignature), confirmed natively against the real IO",
+        ],
+        "outside": ["panics inside encoding/json, libp2p or cbor themselves", "byte-level JSON mutations (covered through their decode result only)"],
+    },
     "C06": {
         "groups": [{
             "pkg": KV, "funcs": ["VerifC06Replay"],
